@@ -6,6 +6,7 @@ CONSTANTS
   J = 2
   MaxLen = 4
   Record = FALSE
+  Retain = TRUE
   Starts = {0, 1}
   CtxChoices = {3, 9}
   HCs = {"plain"}
@@ -15,6 +16,6 @@ CONSTANTS
 INIT MCInit
 NEXT MCNext
 VIEW StateView
-INVARIANTS TypeOK CtxResult
-PROPERTIES FirstGood200 RetryOnlyOn OthersImmediate HonoursRetryAfter CapPlusJitter NoDelayOn408 WaitIsBackoffPlusJitter UntilInWindow PendingOnlyExtended MultMonotone NoPostAfterCtx PromptCtxSafe RedirectNotOK SpellingIrrelevant HandedBack
+INVARIANTS TypeOK CtxResult RetainedOwn OneResultPerCall IdsDistinct
+PROPERTIES FirstGood200 RetryOnlyOn OthersImmediate HonoursRetryAfter CapPlusJitter NoDelayOn408 WaitIsBackoffPlusJitter UntilInWindow PendingOnlyExtended MultMonotone NoPostAfterCtx PromptCtxSafe RedirectNotOK SpellingIrrelevant HandedBack ResultsAreValues
 CHECK_DEADLOCK FALSE
